@@ -695,6 +695,66 @@ def config_roundtrip(ctx, tier, seed):
     fails = []
     cases = 0
     n = 300 if tier == "quick" else 6000
+    # (a) CFG-VALGET responses (GET mode) with documented and undocumented key IDs, any item count: every item becomes
+    #     one attribute, named by the documented lookup (CFG_0x<id> for undocumented IDs), holding the decoded value
+    from contracts.specs import n_cfgkey2name_spec
+    for _ in range(max(40, n // 4)):
+        k = rnd.choice([0, 1, 2, 5, 33, 63, 64, rnd.randrange(0, 65)])
+        body, want = b"", []
+        seen_ids = set()
+        for _j in range(k):
+            if rnd.random() < 0.7:
+                nm = rnd.choice(names)
+                kid, typ = UBX_CONFIG_DATABASE[nm]
+            else:
+                kid = (rnd.randrange(1, 6) << 28) | rnd.randrange(1 << 24)
+                try:
+                    nm, typ = n_cfgkey2name_spec(kid)
+                except KeyError:
+                    continue
+            if kid in seen_ids:
+                continue
+            seen_ids.add(kid)
+            nm, typ = n_cfgkey2name_spec(kid)
+            sz = int(typ[1:4])
+            vb = bytes(rnd.randrange(256) for _ in range(sz))
+            body += kid.to_bytes(4, "little") + vb
+            if typ[0] in "ULE":
+                v = int.from_bytes(vb, "little")
+            elif typ[0] == "I":
+                v = int.from_bytes(vb, "little", signed=True)
+            elif typ[0] == "X":
+                v = vb
+            else:
+                import struct as _st
+                v = _st.unpack("<f" if sz == 4 else "<d", vb)[0]
+            want.append((nm, v))
+        payload = bytes([1, rnd.randrange(8), 0, 0]) + body
+        cases += 1
+        try:
+            p = UBXMessage(b"\x06", b"\x8b", 0, payload=payload)
+            got = [(a, getattr(p, a)) for a in p.__dict__ if a.startswith("CFG_")]
+            same = len(got) == len(want) and all(a == b and (x == y or (x != x and y != y)) for (a, x), (b, y) in zip(got, want))
+            if not same:
+                fails.append({"case": f"cfg-valget:{len(want)}items", "detail": f"parsed {got[:3]!r}..., expected {want[:3]!r}..."[:300],
+                              "inputs": {"payload": payload.hex()[:400]}})
+        except Exception as e:  # noqa
+            fails.append({"case": f"cfg-valget-exc:{type(e).__name__}", "detail": str(e)[:200], "inputs": {"payload": payload.hex()[:400]}})
+    # (b) the builders accept every item count up to 64 and refuse 65
+    for cnt in (0, 1, 32, 33, 40, 63, 64, 65):
+        ks = names[:cnt]
+        for fn, args in (("config_poll", (0, 0, ks)), ("config_del", (1, 0, ks)),
+                         ("config_set", (1, 0, [(nm, (b"\x00" * int(UBX_CONFIG_DATABASE[nm][1][1:4]) if UBX_CONFIG_DATABASE[nm][1][0] == "X"
+                                                      else (0.0 if UBX_CONFIG_DATABASE[nm][1][0] == "R" else 0))) for nm in ks]))):
+            cases += 1
+            try:
+                getattr(UBXMessage, fn)(*args)
+                ok = cnt <= 64
+            except Exception as e:  # noqa
+                ok = cnt > 64 and type(e).__name__ == "UBXMessageError"
+            if not ok:
+                fails.append({"case": f"cfg-count:{fn}:{cnt}", "detail": f"{fn} with {cnt} valid items " + ("refused" if cnt <= 64 else "accepted / foreign exception"),
+                              "inputs": {"count": cnt}})
     for _ in range(n):
         k = rnd.randrange(0, 9)
         items = []
@@ -728,4 +788,6 @@ def config_roundtrip(ctx, tier, seed):
                 fails.append({"case": "cfg-poll", "detail": f"{q.payload.hex()} != {want.hex()}", "inputs": {"ids": ids}})
         except Exception as e:  # noqa
             fails.append({"case": f"cfg-exc:{type(e).__name__}", "detail": str(e)[:200], "inputs": {"items": repr(items)[:300]}})
-    return _res("config_set -> parse gives one attribute per key with its value; config_poll payload", f"{n} random item lists (0..8 items)", cases, fails)
+    return _res("config_set -> parse gives one attribute per key with its value; config_poll payload; CFG-VALGET responses "
+                "with documented and undocumented IDs parse to one attribute per item; builders accept 0..64 items and refuse 65",
+                f"{n} random item lists (0..8 items) + {max(40, n // 4)} VALGET payloads (0..64 items) + 8 boundary counts x 3 builders", cases, fails)
